@@ -97,6 +97,8 @@ type caseGen struct {
 	caseTag string
 
 	plainPack bool
+	detached  bool // a Clear() has swapped the executed store: later MarkExecuted records are not visible
+	dead      bool // MarkExecuted panicked: the case ends
 }
 
 func (g *caseGen) genHash() common.Hash {
@@ -325,6 +327,32 @@ func (g *caseGen) mark(txIdx, evIdx []int) {
 	g.pool.MarkExecuted(header, receipts, txs, ev)
 }
 
+// MarkExecuted with receipts that are NOT aligned with the block's transactions: receipts for a shuffled
+// subset of the block, sometimes one for a transaction the block does not contain (panics)
+func (g *caseGen) markCall(rcIdx, txIdx, evIdx []int) (panicked bool) {
+	blockNo++
+	header := &types.BlockHeader{Height: blockNo}
+	var receipts types.Receipts
+	var txs []*types.Transaction
+	for _, i := range rcIdx {
+		receipts = append(receipts, &types.Receipt{TxHash: g.tbl[i].Hash, Height: blockNo})
+	}
+	for _, i := range txIdx {
+		txs = append(txs, g.tbl[i])
+	}
+	var ev []common.Hash
+	for _, i := range evIdx {
+		ev = append(ev, g.tbl[i].Hash)
+	}
+	defer func() {
+		if recover() != nil {
+			panicked = true
+		}
+	}()
+	g.pool.MarkExecuted(header, receipts, txs, ev)
+	return false
+}
+
 func (g *caseGen) unmarkBlock(txIdx, evIdx []int) {
 	var bh common.Hash
 	copy(bh[:], g.r.Bytes(32))
@@ -424,8 +452,66 @@ func (g *caseGen) doPack() {
 
 func (g *caseGen) run(nops int) {
 	for k := 0; k < nops; k++ {
+		if g.dead {
+			break
+		}
 		obs := !g.big || k == nops-1
 		c := g.r.Intn(100)
+		if len(g.tbl) > 0 && !g.big {
+			switch g.r.Intn(50) {
+			case 0: // Clear()
+				if g.r.Intn(3) != 0 {
+					break
+				}
+				g.pool.Clear()
+				g.detached = true
+				g.lim = poolSize
+				g.emit(fmt.Sprintf("SClear %d", poolSize), map[string]interface{}{"op": "clear"}, true)
+				res.Histogram["op:clear"]++
+				g.checkDisjoint(fmt.Sprintf("op %d (clear)", k))
+				continue
+			case 1, 2: // MarkExecuted with unaligned receipts
+				var txIdx, rcIdx, evIdx []int
+				for _, i := range g.recvIdx() {
+					if g.r.Intn(2) == 0 {
+						txIdx = append(txIdx, i)
+					}
+				}
+				txIdx = append(txIdx, g.pickTbl(g.r.Intn(3))...)
+				for _, i := range txIdx {
+					switch g.r.Intn(4) {
+					case 0: // no receipt
+					case 1: // receipt at the front: out of position
+						rcIdx = append([]int{i}, rcIdx...)
+					default:
+						rcIdx = append(rcIdx, i)
+					}
+				}
+				foreign := false
+				if g.r.Intn(6) == 0 { // a receipt for a transaction that may not be in the block
+					rcIdx = append(rcIdx, g.r.Intn(len(g.tbl)))
+					foreign = true
+				}
+				if g.r.Intn(4) == 0 {
+					evIdx = g.pickTbl(1)
+				}
+				p := g.markCall(rcIdx, txIdx, evIdx)
+				g.emit(fmt.Sprintf("SMarkCall %s %s %s %s", coqIdx(rcIdx), coqIdx(txIdx), coqIdx(evIdx), hx.CoqBool(p)),
+					map[string]interface{}{"op": "mark-call", "receipts": rcIdx, "txs": txIdx, "evicted": evIdx, "panicked": p}, !p)
+				if p {
+					g.dead = true
+					res.Histogram["op:mark-call-panics"]++
+					if !foreign {
+						violate("C17/mark-call:panics", "MarkExecuted panicked although every receipt belongs to a block transaction", g.history())
+					}
+				} else {
+					g.blocks = append(g.blocks, [2][]int{rcIdx, evIdx})
+					res.Histogram["op:mark-call"]++
+					g.checkDisjoint(fmt.Sprintf("op %d (mark-call)", k))
+				}
+				continue
+			}
+		}
 		switch {
 		case c < 40 || len(g.tbl) == 0: // add (new tx, or an old one again)
 			var i int
@@ -480,7 +566,7 @@ func (g *caseGen) run(nops int) {
 			g.blocks = append(g.blocks, [2][]int{txIdx, evIdx})
 			g.emit(fmt.Sprintf("SMark %s %s", coqIdx(txIdx), coqIdx(evIdx)), map[string]interface{}{"op": "mark", "txs": txIdx, "evicted": evIdx}, obs)
 			for _, i := range txIdx {
-				if g.pool.GetExecuted(g.tbl[i].Hash) == nil || !g.pool.IsExisted(g.tbl[i].Hash) {
+				if !g.detached && (g.pool.GetExecuted(g.tbl[i].Hash) == nil || !g.pool.IsExisted(g.tbl[i].Hash)) {
 					violate("C17/at-most-once:mark-not-recorded", "MarkExecuted left no executed record", g.history())
 				}
 			}
@@ -1058,6 +1144,89 @@ func soak(r *hx.Rng, rounds int) {
 	}
 }
 
+// the evicted-hash cache at its bound: more than txCacheSize (1000) evicted hashes, recency order, Remove
+func lruCase(r *hx.Rng, cs *hx.Cases, idx int) {
+	f := setFlags(flags{true, true, true, true})
+	mem, _ := db.NewMemDatabase()
+	pool := service.VerifNewTxPool(mem, poolSize)
+	base := new(big.Int).SetBytes(r.Bytes(20))
+	hashOf := func(k int) common.Hash {
+		var h common.Hash
+		b := new(big.Int).Add(base, big.NewInt(int64(k))).Bytes()
+		copy(h[32-len(b):], b)
+		return h
+	}
+	var steps []string
+	var js []interface{}
+	evRange := func(from, n int) {
+		var ev []common.Hash
+		for k := 0; k < n; k++ {
+			ev = append(ev, hashOf(from+k))
+		}
+		pool.MarkExecuted(&types.BlockHeader{Height: 1}, nil, nil, ev)
+		steps = append(steps, fmt.Sprintf("(SMarkEvRange %s %d, None)", new(big.Int).Add(base, big.NewInt(int64(from))).String(), n))
+		js = append(js, map[string]interface{}{"op": "mark-evicted-range", "from": from, "n": n})
+	}
+	probe := func(k int) {
+		r := pool.VerifIsEvicted(hashOf(k))
+		steps = append(steps, fmt.Sprintf("(SEvictedRaw %s %s, None)", new(big.Int).Add(base, big.NewInt(int64(k))).String(), hx.CoqBool(r)))
+		js = append(js, map[string]interface{}{"op": "evicted-probe", "k": k, "r": r})
+		res.Histogram[fmt.Sprintf("op:lru-probe-%v", r)]++
+	}
+	n := 1000 + 1 + r.Intn(200)
+	evRange(0, n)
+	for _, k := range []int{0, n - 1001, n - 1000, n - 999, n - 1, n, r.Intn(n)} {
+		if k >= 0 {
+			probe(k)
+		}
+	}
+	evRange(n-1000, 1) // refresh the oldest survivor, then push one more: the second oldest goes instead
+	evRange(n, 1)
+	for _, k := range []int{n - 1000, n - 999, n - 998, n} {
+		probe(k)
+	}
+	term := fmt.Sprintf("(%s, (%d, %d), [],\n  [%s])", f.coq(), poolSize, perBlock, strings.Join(steps, ";\n   "))
+	cs.Add(term, map[string]interface{}{"case": "lru-bound", "ops": js})
+	res.Count("seq:evicted-cache-bound", fmt.Sprintf("lru-%d-%s", n, base.String()), true)
+}
+
+// Clear(): the executed store is swapped (listed finding; Clear has no caller in the node)
+func clearReplay(r *hx.Rng) {
+	setFlags(flags{true, true, true, true})
+	mem, _ := db.NewMemDatabase()
+	pool := service.VerifNewTxPool(mem, poolSize)
+	src := "0x" + hex.EncodeToString(r.Bytes(20))
+	mk := func(n uint64) *types.Transaction {
+		tx := &types.Transaction{Source: src, Target: src, Nonce: n, Type: 188, ChainId: "9500"}
+		copy(tx.Hash[:], r.Bytes(32))
+		return tx
+	}
+	mark := func(t *types.Transaction) {
+		pool.MarkExecuted(&types.BlockHeader{Height: 1}, types.Receipts{&types.Receipt{TxHash: t.Hash}}, []*types.Transaction{t}, nil)
+	}
+	t, u := mk(0), mk(1)
+	pool.AddTransaction(t)
+	mark(t)
+	refused, _ := pool.AddTransaction(t)
+	pool.Clear()
+	again, _ := pool.AddTransaction(t)
+	packed := false
+	for _, p := range pool.PackForCast(2, mkState(map[string]uint64{src: 1})) {
+		packed = packed || p.Hash == t.Hash
+	}
+	res.Count("clear:executed-then-clear-then-add", "clear-replay", true)
+	if !refused && again {
+		violate("C17/clear:executed-forgotten", fmt.Sprintf("after Clear() an executed transaction is admitted again (and packed again: %v): Clear re-opens the executed store as db.NewDatabase(\"tx\"), a different store from the pool's own LevelDB", packed),
+			map[string]interface{}{"ops": []string{"add t", "mark-executed [t]", "add t -> refused", "Clear()", "add t -> accepted"}, "t": descTx(t)})
+	}
+	pool.AddTransaction(u)
+	mark(u)
+	if ok, _ := pool.AddTransaction(u); ok {
+		violate("C17/clear:later-marks-invisible", "after Clear() MarkExecuted writes its records through the old store's batch: a transaction executed after the Clear is admitted again at once",
+			map[string]interface{}{"ops": []string{"Clear()", "add u", "mark-executed [u]", "add u -> accepted"}, "u": descTx(u)})
+	}
+}
+
 // production limit: fill the pending list to rcvTxPoolSize, then unmark a block
 func capacityReplay(r *hx.Rng) {
 	setFlags(flags{true, true, true, true})
@@ -1088,6 +1257,7 @@ func capacityReplay(r *hx.Rng) {
 
 func main() {
 	a := hx.ParseArgs()
+	reexecUnderGorace(a.Out)
 	res = hx.NewResult("one evaluation = one operation sequence on a fresh pool (every step compared with the model); non-trivial = contains at least one mark-executed/unmark; distinct by (flags, limit, full step list)")
 	common.Init(0, "p.ini", "dev")
 	common.SetBlockHeight(100)
@@ -1111,6 +1281,13 @@ func main() {
 	for i := 0; i < nbig; i++ {
 		oneCase(r.Fork(), cs, a.N+i, true)
 	}
+	nlru := 1
+	if a.Tier == "thorough" {
+		nlru = 4
+	}
+	for i := 0; i < nlru; i++ {
+		lruCase(r.Fork(), cs, a.N+nbig+i)
+	}
 	cs.Close()
 	sc := hx.NewCasesNamed(a.Out, "sched", "From Coq Require Import NArith.\nFrom V.C17 Require Import Model Harness.\nOpen Scope N_scope.", "N * list tx * list (slop * option (list N * list N))", "check_sched", 100)
 	setFlags(flags{true, true, true, true})
@@ -1126,12 +1303,26 @@ func main() {
 	sc.Close()
 	raceReplay(r.Fork())
 	capacityReplay(r.Fork())
+	clearReplay(r.Fork())
 	if a.Tier == "thorough" {
 		soak(r.Fork(), 3000)
+		for i := 0; i < 150; i++ {
+			raceSoakRound(r.Fork(), i, false)
+		}
+		for i := 0; i < 30; i++ {
+			raceSoakRound(r.Fork(), 150+i, true)
+		}
 	} else {
 		soak(r.Fork(), 200)
+		for i := 0; i < 10; i++ {
+			raceSoakRound(r.Fork(), i, false)
+		}
 	}
-	res.Note(fmt.Sprintf("txCountPerBlock=%d rcvTxPoolSize=%d (read from the service package); evicted-cache LRU bound (1000) never reached in a case", perBlock, poolSize))
+	if raceEnabled {
+		n := collectRaceReports(a.Out)
+		res.Note(fmt.Sprintf("race detector active (GORACE halt_on_error=0): %d report(s) in total", n))
+	}
+	res.Note(fmt.Sprintf("txCountPerBlock=%d rcvTxPoolSize=%d (read from the service package); evicted-cache LRU bound (1000) exercised by the lru cases", perBlock, poolSize))
 	res.ModelCases = cs.Total() + sc.Total()
 	res.Write(a.Out)
 	keys := make([]string, 0)
